@@ -193,23 +193,26 @@ def selective_flip(ctx, probs, reps):
         if not ctx.mine(rep):
             continue
         y0 = P["y0"]()
+        y0[3] = 0.0      # linear oscillator: a partially flipped field is hyperbolic; with the cubic term it would blow up in finite time
         T = float(rng.uniform(0.3, 1.5))
         flip = [[0], [1], [0, 1], [1, 0]][rep % 4]
+
+        def modified(t, y):
+            d = P["fun"](t, y)
+            d[flip] *= -1
+            return d
+        # the reference comes FIRST: a modified field that blows up must never be handed to the library (an adaptive integrator
+        # then shrinks its step below the resolution of t and does not terminate — observed as a 2 h hang of the thorough tier)
+        try:
+            yr = _ref(modified, y0, [0.0, T])[-1]
+        except AssertionError:
+            ctx.skip("modified (partially flipped) field blows up within the span: reference not available")
+            continue
+        if not np.all(np.isfinite(yr)) or np.abs(yr).max() > 1e2:
+            ctx.skip("modified (partially flipped) field grows beyond 1e2 within the span")
+            continue
         for (method, order) in (("fixed", 8), ("adaptive", 8)):
             sol = _propagate_dynsys(P["system"], y0, 0.0, T, forward=-1, steps=300, method=method, order=order, flip_indices=flip)
-
-            def modified(t, y):
-                d = P["fun"](t, y)
-                d[flip] *= -1
-                return d
-            try:
-                yr = _ref(modified, y0, [0.0, T])[-1]
-            except AssertionError:
-                ctx.skip("modified (partially flipped) field blows up within the span: reference not available")
-                continue
-            if not np.all(np.isfinite(yr)) or np.abs(yr).max() > 1e3:
-                ctx.skip("modified (partially flipped) field grows beyond 1e3 within the span")
-                continue
             e = np.abs(np.asarray(sol.states)[-1] - yr).max()
             ctx.case("selective_flip", [y0.tolist(), T, flip, method], nontrivial=True)
             ctx.check(e <= STATE_TOL * max(1.0, np.abs(yr).max()), "E:selective flip integrates exactly the documented modified field",
